@@ -30,7 +30,7 @@ Proof. intros l i v H. unfold resolve. rewrite H. reflexivity. Qed.
 
 Lemma resolve_some : forall l i v l', resolve i v l = Some l' -> nth_error l i = Some FPending /\ l' = set_nth i v l.
 Proof.
-  intros l i v l' H. unfold resolve in H. destruct (nth_error l i) as [[| |]|]; try discriminate.
+  intros l i v l' H. unfold resolve in H. destruct (nth_error l i) as [[| | |]|]; try discriminate.
   inversion H. auto.
 Qed.
 
@@ -263,7 +263,7 @@ Lemma handle_event_alldone : forall e s x s', AllDone s -> handle_event e s = (x
 Proof.
   intros e s x s' AD H.
   assert (forall i v, resolve i v (futs s) = None) as R.
-  { intros i v. unfold resolve. specialize (AD i). destruct (nth_error (futs s) i) as [[| |]|]; try reflexivity. congruence. }
+  { intros i v. unfold resolve. specialize (AD i). destruct (nth_error (futs s) i) as [[| | |]|]; try reflexivity. congruence. }
   assert (forall ps, fail_all ps (futs s) = (None, futs s) \/ exists x, fail_all ps (futs s) = (Some x, futs s)) as FA.
   { intros [|[u i] t]; simpl; [auto|]. rewrite R. right. eauto. }
   destruct e as [|hx|uid|sid d fin|cid hx|cid hx|]; simpl in H.
